@@ -15,6 +15,7 @@ type Cache struct {
 	entries map[string]clientEntries
 	mux     sync.RWMutex
 	maxSkew time.Duration // longest clock skew any user of the cache accepts
+	floor   time.Time     // client times before this may have been forgotten while a shorter skew applied
 }
 
 // clientEntries holds entries of client details sent to the service.
@@ -79,6 +80,11 @@ func GetReplayCache(d time.Duration) *Cache {
 	if d > replayCache.skew() {
 		replayCache.mux.Lock()
 		if d > replayCache.maxSkew {
+			// Entries older than the skew that applied so far may already have been cleared: the cache cannot
+			// tell whether an authenticator from before that point has been seen.
+			if f := time.Now().UTC().Add(-replayCache.maxSkew); f.After(replayCache.floor) {
+				replayCache.floor = f
+			}
 			replayCache.maxSkew = d
 		}
 		replayCache.mux.Unlock()
@@ -136,6 +142,10 @@ func (c *Cache) addEntry(sname types.PrincipalName, a types.Authenticator) {
 func (c *Cache) ClearOldEntries(d time.Duration) {
 	c.mux.Lock()
 	defer c.mux.Unlock()
+	if d < c.maxSkew {
+		// never forget what the longest skew in use still accepts (the caller may have read the skew before it was raised)
+		d = c.maxSkew
+	}
 	for ke, ce := range c.entries {
 		for k, e := range ce.replayMap {
 			// An authenticator stays acceptable until its client time is older than the permitted skew,
@@ -156,6 +166,12 @@ func (c *Cache) IsReplay(sname types.PrincipalName, a types.Authenticator) bool 
 	ct := clientTime(a)
 	c.mux.Lock()
 	defer c.mux.Unlock()
+	// An authenticator the cache may already have forgotten cannot be vouched for: one older than the skew entries are
+	// kept for (the caller tested its skew before waiting for the lock, a clean-up may have run since), or older than
+	// what was kept while a shorter skew applied.
+	if time.Now().UTC().Sub(ct) > c.maxSkew || ct.Before(c.floor) {
+		return true
+	}
 	if ce, ok := c.entries[clientKey(a.CRealm, a.CName)]; ok {
 		if _, ok := ce.replayMap[replayKey{ct, nameKey(sname)}]; ok {
 			return true
